@@ -162,6 +162,7 @@ Print Assumptions C03_complex_allZ_row.
    checked by finite differences of the implementation's own rho in harness/checks/c03.py (every parameter, both networks).
    Proved below (_partial): the all-Z / negative-phase ingredient (C03_energy_grad_purification above), and that the
    auxiliary-bias block of the phase network's gradient terms is identically zero. *)
+(* PROVED below as C03_nll_gradient_mixed (section 8, at the end of this file; proofs in QTheory.GradMixedR) *)
 Theorem C03_nll_gradient_mixed_partial : forall (am ph : prbm (T:=R)) plus expand v vp,
   (exists pre, p_gamma_grad ROps ph plus v vp = pre ++ repeat 0 (length (pd ph))) /\
   (exists pre, p_pi_grad ROps am ph true expand v vp = pre ++ repeat (0, 0) (length (pd ph))).
@@ -238,3 +239,76 @@ Theorem C03_exact_grads_alias : forall am D space,
   pos_compute_exact_grads ROps am D space = pos_compute_exact_gradients ROps am D space.
 Proof. exact exact_grads_alias. Qed.
 Print Assumptions C03_exact_grads_alias.
+
+(* ---------------------------------------------------------------- 8. mixed states: the full statement (C03.5) *)
+(* Proofs: QTheory.GradMixedR.  Rho.pi_guard is C02's non-singularity guard (1 + exp(x_k + i y_k) <> 0 for every
+   auxiliary unit k of the pair); under it rho equals its smooth partial-trace / product form (C02_rho_is_partial_trace),
+   so atan2's branch cut never enters.  eps8 ROps is the literal 1e-8 of the code (Grads.eps8 = 1 / 100000000). *)
+From QTheory Require Rho GradMixedR.
+
+(* step 1 — per-entry log-derivative, both networks moved at once:  d rho(v,v') = rho(v,v') * (Lre + i Lim)  where
+   Lre + i Lim is the pairing of the model's am_grads (gamma_grad(+) + pi_grad) and ph_grads (i gamma_grad(-) + pi_grad(phase))
+   entries at (v,v') with the two directions *)
+Theorem C03_rho_entry_log_derivative : forall nh na nv am dam ph dph v vp t0,
+  p_shaped nh na nv am -> p_shaped nh na nv dam -> p_shaped nh na nv ph -> p_shaped nh na nv dph ->
+  length v = nv -> length vp = nv ->
+  List.Forall Rho.pi_guard (pi_args ROps (p_line am dam t0) (p_line ph dph t0) v vp) ->
+  let am0 := p_line am dam t0 in
+  let ph0 := p_line ph dph t0 in
+  let rho := fun t => dm_rho ROps (p_line am dam t) (p_line ph dph t) v vp in
+  let Lre := dot ROps (map fst (dm_am_grads ROps am0 ph0 v vp)) (p_flatten dam)
+             + dot ROps (map fst (dm_ph_grads ROps am0 ph0 v vp)) (p_flatten dph) in
+  let Lim := dot ROps (map snd (dm_am_grads ROps am0 ph0 v vp)) (p_flatten dam)
+             + dot ROps (map snd (dm_ph_grads ROps am0 ph0 v vp)) (p_flatten dph) in
+  is_derive (fun t => fst (rho t)) t0 (fst (rho t0) * Lre - snd (rho t0) * Lim) /\
+  is_derive (fun t => snd (rho t)) t0 (fst (rho t0) * Lim + snd (rho t0) * Lre).
+Proof. exact GradMixedR.rho_entry_log_derivative. Qed.
+Print Assumptions C03_rho_entry_log_derivative.
+
+(* step 2 — one measured row in a rotated basis:  d/dt [-ln(P_s + 1e-8)]  is the pairing of the model's rotated_gradient
+   (the code's 1/(P + 1e-8) factor and minus sign) with the two directions; P_s >= 0 is proved (Gram form), not assumed *)
+Theorem C03_nll_gradient_mixed_row : forall nh na nv am dam ph dph user basis s t0,
+  p_shaped nh na nv am -> p_shaped nh na nv dam -> p_shaped nh na nv ph -> p_shaped nh na nv dph ->
+  length basis = nv -> length s = nv ->
+  (forall vi vj, In vi (expansions basis s) -> In vj (expansions basis s) ->
+     List.Forall Rho.pi_guard (pi_args ROps (p_line am dam t0) (p_line ph dph t0) vi vj)) ->
+  is_derive (fun t => - ln (rho_prob1 ROps user basis (dm_rho ROps (p_line am dam t) (p_line ph dph t)) s + eps8 ROps)) t0
+    (dot ROps (fst (dm_rot1 ROps (p_line am dam t0) (p_line ph dph t0) user basis s)) (p_flatten dam)
+     + dot ROps (snd (dm_rot1 ROps (p_line am dam t0) (p_line ph dph t0) user basis s)) (p_flatten dph)).
+Proof. exact GradMixedR.nll_gradient_mixed_row_full. Qed.
+Print Assumptions C03_nll_gradient_mixed_row.
+
+(* step 3 — the TARGET of section 5: every data set D <> [] with per-row bases (all-Z rows take the energy path, the others
+   the rotated path), BOTH networks moved at once; the guard is required only for the pairs expanded by rotated rows *)
+Theorem C03_nll_gradient_mixed : forall nh na nv am dam ph dph user batch t0,
+  p_shaped nh na nv am -> p_shaped nh na nv dam -> p_shaped nh na nv ph -> p_shaped nh na nv dph ->
+  batch <> [] ->
+  (forall x, In x batch -> length (fst x) = nv /\ length (snd x) = nv) ->
+  (forall x, In x batch -> forallb is_Z (fst x) = false ->
+     forall vi vj, In vi (expansions (fst x) (snd x)) -> In vj (expansions (fst x) (snd x)) ->
+       List.Forall Rho.pi_guard (pi_args ROps (p_line am dam t0) (p_line ph dph t0) vi vj)) ->
+  let g := compute_exact_gradients ROps (dm_gstate ROps (p_line am dam t0) (p_line ph dph t0) user) batch (all_bits nv) in
+  is_derive (fun t =>
+      (sum ROps (map (fun x => p_eff_energy ROps (p_line am dam t) (snd x)) (filter (fun x => forallb is_Z (fst x)) batch))
+       - sum ROps (map (fun x => ln (rho_prob1 ROps user (fst x) (dm_rho ROps (p_line am dam t) (p_line ph dph t)) (snd x) + eps8 ROps))
+                       (filter (fun x => negb (forallb is_Z (fst x))) batch))) / INR (length batch)
+      + ln (dm_normalization ROps (p_line am dam t) (all_bits nv))) t0
+    (dot ROps (fst g) (p_flatten dam) + dot ROps (snd g) (p_flatten dph)).
+Proof. exact GradMixedR.nll_gradient_mixed_explicit. Qed.
+Print Assumptions C03_nll_gradient_mixed.
+
+(* non-vacuity of the hypotheses of C03_nll_gradient_mixed: a 1-1-1 density matrix with non-zero biases, a direction moving
+   every parameter of both networks, a batch with X, Z and Y rows, t0 = 0 *)
+Example C03_mixed_hypotheses_nonvacuous :
+  let am := mkP [[1]] [[1]] [0.3] [-0.2] [0.5] in
+  let ph := mkP [[0.7]] [[2]] [0.1] [0.4] [0] in
+  let dam := mkP [[1]] [[-1]] [1] [1] [1] in
+  let dph := mkP [[-1]] [[1]] [1] [-1] [1] in
+  let batch := [([LX], [true]); ([LZ], [false]); ([LY], [false])] in
+  p_shaped 1 1 1 am /\ p_shaped 1 1 1 dam /\ p_shaped 1 1 1 ph /\ p_shaped 1 1 1 dph /\ batch <> [] /\
+  (forall x, In x batch -> length (fst x) = 1%nat /\ length (snd x) = 1%nat) /\
+  (forall x, In x batch -> forallb is_Z (fst x) = false ->
+     forall vi vj, In vi (expansions (fst x) (snd x)) -> In vj (expansions (fst x) (snd x)) ->
+       List.Forall Rho.pi_guard (pi_args ROps (p_line am dam 0) (p_line ph dph 0) vi vj)).
+Proof. exact GradMixedR.mixed_hypotheses_nonvacuous. Qed.
+Print Assumptions C03_mixed_hypotheses_nonvacuous.
